@@ -182,6 +182,19 @@ CHECKS = {
             'the generated program that is never used for verdicts; VerilogSem is two-state.',
             'per-program translation validation: programs generated by TLC from a grammar specification, emitted Verilog executed by TLC against the real Python execution',
             'DESIGN.md section 4, C02'),
+    'C12': ('exploration',
+            'FloatFmt.tla specifies IEEE-754 binary formats parametrically over exact dyadic rationals on limb vectors and is '
+            'self-checked by TLC (Encode/Decode round trip, monotonicity, exact add/mul identities on formats (3,2),(4,3); platform '
+            'struct encoding on every pattern used). The helpers (FPNum from bits/float, components, to_float, convert, sp/dp '
+            'to/from IEEE-754 incl. parts, add/sub/mul/compare incl. values that went through precision reduction, two-complement '
+            'round trip, signExtend, FixedPoint raw add/sub/mult) are called on every 5th (quick) / all 2^16 (thorough) half '
+            'patterns, a structured single/double table (exponent fields x boundary mantissas x signs, zeros, subnormal boundaries, '
+            'infinities), seeded operand pairs with exponent gaps 0..60, all values at widths 1..8 and all operand pairs of six '
+            'fixed-point formats; every result is recomputed by TLC (Trace_Float).',
+            'encode/decode fidelity of pure functions: an oracle evaluated on a structured finite table, exhaustive only for half '
+            'precision, two-complement widths <= 8-10 and small fixed-point formats.',
+            'TLC evaluation of an exact-rational format specification over logged helper calls',
+            'DESIGN.md section 4, C12'),
 }
 
 PENDING = {}
